@@ -218,8 +218,15 @@ func Eq(a, b *Term) *Term {
 	if a.IsConst() {
 		a, b = b, a
 	}
-	if b.IsConst() && a.op == OIte && iteDepth(a) <= 6 {
-		return Ite(a.args[0], Eq(a.args[1], b), Eq(a.args[2], b))
+	if b.IsConst() && a.op == OIte {
+		if ls, ok := enumLeaves(a); ok {
+			for i, v := range ls.vals {
+				if v == b.val {
+					return ls.conds[i]
+				}
+			}
+			return False
+		}
 	}
 	if a.id > b.id {
 		a, b = b, a
@@ -242,8 +249,95 @@ func iteDepth(t *Term) int {
 	return 1000
 }
 
-// liftable reports whether t is a small ite tree with constant leaves.
-func liftable(t *Term) bool { return t.op == OIte && iteDepth(t) <= 5 }
+// liftable reports whether t is an ite tree with few distinct constant leaves.
+func liftable(t *Term) bool {
+	if t.op != OIte {
+		return false
+	}
+	_, ok := enumLeaves(t)
+	return ok
+}
+
+const maxLeaves = 48
+
+type leafSet struct {
+	vals  []uint64
+	conds []*Term
+	ok    bool
+}
+
+var leafMemo = map[int]*leafSet{}
+
+// enumLeaves returns, for an ite tree with constant leaves, the distinct values and the condition under
+// which the term takes each of them (value-enumeration normal form); ok=false if it is not such a tree
+// or has too many distinct values.
+func enumLeaves(t *Term) (*leafSet, bool) {
+	if ls, ok := leafMemo[t.id]; ok {
+		return ls, ls.ok
+	}
+	ls := &leafSet{}
+	switch t.op {
+	case OConst:
+		ls.vals, ls.conds, ls.ok = []uint64{t.val}, []*Term{True}, true
+	case OIte:
+		a, oka := enumLeaves(t.args[1])
+		b, okb := enumLeaves(t.args[2])
+		if oka && okb {
+			c := t.args[0]
+			idx := map[uint64]int{}
+			add := func(v uint64, g *Term) {
+				if g.IsFalse() {
+					return
+				}
+				if i, ok := idx[v]; ok {
+					ls.conds[i] = Or(ls.conds[i], g)
+					return
+				}
+				idx[v] = len(ls.vals)
+				ls.vals = append(ls.vals, v)
+				ls.conds = append(ls.conds, g)
+			}
+			for i, v := range a.vals {
+				add(v, And(c, a.conds[i]))
+			}
+			nc := Not(c)
+			for i, v := range b.vals {
+				add(v, And(nc, b.conds[i]))
+			}
+			ls.ok = len(ls.vals) <= maxLeaves
+		}
+	}
+	leafMemo[t.id] = ls
+	return ls, ls.ok
+}
+
+// fromLeaves builds the chain ite(c1, v1, ite(c2, v2, ... vn)).
+func fromLeaves(w int, vals []uint64, conds []*Term) *Term {
+	if len(vals) == 0 {
+		return mkConst(w, 0)
+	}
+	// merge equal values
+	idx := map[uint64]int{}
+	var vs []uint64
+	var cs []*Term
+	for i, v := range vals {
+		if w > 0 {
+			v &= mask(w)
+		}
+		if j, ok := idx[v]; ok {
+			cs[j] = Or(cs[j], conds[i])
+			continue
+		}
+		idx[v] = len(vs)
+		vs = append(vs, v)
+		cs = append(cs, conds[i])
+	}
+	r := mkConst(w, vs[len(vs)-1])
+	for i := len(vs) - 2; i >= 0; i-- {
+		r = Ite(cs[i], mkConst(w, vs[i]), r)
+	}
+	return r
+}
 
 func bin(op Op, a, b *Term, w int, f func(x, y uint64) uint64) *Term {
 	if a.w != b.w {
@@ -253,11 +347,34 @@ func bin(op Op, a, b *Term, w int, f func(x, y uint64) uint64) *Term {
 		return mkConst(w, f(a.val, b.val))
 	}
 	// lift through ite trees with constant leaves so that sizes stay enumerable
-	if b.IsConst() && liftable(a) {
-		return Ite(a.args[0], bin(op, a.args[1], b, w, f), bin(op, a.args[2], b, w, f))
-	}
-	if a.IsConst() && liftable(b) {
-		return Ite(b.args[0], bin(op, a, b.args[1], w, f), bin(op, a, b.args[2], w, f))
+	if (a.IsConst() || a.op == OIte) && (b.IsConst() || b.op == OIte) {
+		la, oka := enumLeaves(a)
+		lb, okb := enumLeaves(b)
+		if oka && okb && len(la.vals)*len(lb.vals) <= 256 {
+			var vals []uint64
+			var conds []*Term
+			for i, x := range la.vals {
+				for j, y := range lb.vals {
+					g := And(la.conds[i], lb.conds[j])
+					if g.IsFalse() {
+						continue
+					}
+					vals = append(vals, f(x, y))
+					conds = append(conds, g)
+				}
+			}
+			if w == 0 {
+				// Boolean result: the disjunction of the conditions under which it is true
+				r := False
+				for i, v := range vals {
+					if v != 0 {
+						r = Or(r, conds[i])
+					}
+				}
+				return r
+			}
+			return fromLeaves(w, vals, conds)
+		}
 	}
 	return intern(&Term{op: op, w: w, args: []*Term{a, b}})
 }
@@ -406,8 +523,8 @@ func Zext(a *Term, w int) *Term {
 	if a.IsConst() {
 		return mkConst(w, a.val)
 	}
-	if liftable(a) {
-		return Ite(a.args[0], Zext(a.args[1], w), Zext(a.args[2], w))
+	if ls, ok := enumLeaves(a); ok && a.op == OIte {
+		return fromLeaves(w, ls.vals, ls.conds)
 	}
 	return intern(&Term{op: OZext, w: w, args: []*Term{a}})
 }
@@ -418,8 +535,12 @@ func Sext(a *Term, w int) *Term {
 	if a.IsConst() {
 		return mkConst(w, uint64(sext64(a.val, a.w)))
 	}
-	if liftable(a) {
-		return Ite(a.args[0], Sext(a.args[1], w), Sext(a.args[2], w))
+	if ls, ok := enumLeaves(a); ok && a.op == OIte {
+		vals := make([]uint64, len(ls.vals))
+		for i, v := range ls.vals {
+			vals[i] = uint64(sext64(v, a.w))
+		}
+		return fromLeaves(w, vals, ls.conds)
 	}
 	return intern(&Term{op: OSext, w: w, args: []*Term{a}})
 }
@@ -430,8 +551,8 @@ func Extract(a *Term, w int) *Term { // low w bits
 	if a.IsConst() {
 		return mkConst(w, a.val)
 	}
-	if liftable(a) {
-		return Ite(a.args[0], Extract(a.args[1], w), Extract(a.args[2], w))
+	if ls, ok := enumLeaves(a); ok && a.op == OIte {
+		return fromLeaves(w, ls.vals, ls.conds)
 	}
 	return intern(&Term{op: OExtract, w: w, args: []*Term{a}})
 }
@@ -441,6 +562,15 @@ func UF(name string, w int, args ...*Term) *Term {
 
 // maxConst returns the largest constant leaf of an ite tree (unsigned), ok=false if a leaf is not constant.
 func maxConst(t *Term) (uint64, bool) {
+	if ls, ok := enumLeaves(t); ok {
+		var m uint64
+		for _, v := range ls.vals {
+			if v > m {
+				m = v
+			}
+		}
+		return m, true
+	}
 	switch t.op {
 	case OConst:
 		return t.val, true
@@ -765,4 +895,37 @@ func (e *evaluator) eval1(t *Term) uint64 {
 		return v & m
 	}
 	panic("eval op")
+}
+
+// String renders small terms for diagnostics.
+func (t *Term) String() string {
+	return t.str(4)
+}
+func (t *Term) str(d int) string {
+	switch t.op {
+	case OConst:
+		return fmt.Sprintf("%d:%d", t.val, t.w)
+	case OVar:
+		return t.name
+	}
+	if d == 0 {
+		return "…"
+	}
+	var as []string
+	for _, a := range t.args {
+		as = append(as, a.str(d-1))
+	}
+	return fmt.Sprintf("(op%d %s)", t.op, strings.Join(as, " "))
+}
+
+// badLeaves lists the non-constant leaves of an ite tree (diagnostics).
+func badLeaves(t *Term, out map[int]*Term) {
+	switch t.op {
+	case OConst:
+	case OIte:
+		badLeaves(t.args[1], out)
+		badLeaves(t.args[2], out)
+	default:
+		out[t.id] = t
+	}
 }
